@@ -11,7 +11,7 @@ from .common import SCtx, sctx
 from .c07 import DATA, INDEX, tctx
 
 PROP = "C14"
-FLOORS = {"C14.R1": 5, "C14.R2": 8, "C14.R3": 4, "C14.R4": 5, "C14.R5": 10, "C14.R6": 4}
+FLOORS = {"C14.R1": 5, "C14.R2": 8, "C14.R3": 4, "C14.R4": 5, "C14.R5": 10, "C14.R6": 4, "C14.R7": 1}
 META = {
     "explanation": "Escape/alias analysis on symbolic terms of the column lists and data dictionaries that reach unverified "
                    "(verify=False) constructors: the list handed over is fresh, never the source's own `_col_names` / `_data`; each "
@@ -386,6 +386,29 @@ def _no_source_mutation(col, rule="C14.R5"):
                 "a derivation never mutates the source's column list or data mapping (directly or through an alias)", str(bad))
 
 
+def _column_rebinding(col, rule="C14.R7"):
+    """t[name] = value on an EXISTING column writes into the column (numpy checks / broadcasts the length); it never
+    rebinds the entry to an object of unchecked length -- the table and everything derived from it would be ragged"""
+    sx = tctx(col.repo, "__setitem__")
+    key = sx.P(0)
+    val = sx.P(1)
+    n = 0
+    for ev in sx.of_kind("store"):
+        for t in S.alts(ev.target):
+            if not (t[:1] == ("sub",) and t[1] == DATA and t[2] == key):
+                continue
+            n += 1
+            conds = sx.conds(ev.nid)
+            new_key = any(c == ("cmp", "not in", key, NAMES) for c in conds)
+            len_ok = any(S.match(c, ("cmp", "==", S.fcall("len", S.V("v")), S.fcall("len", S.SELF))) is not None
+                         for c in conds)
+            col.add(rule, f"Table.__setitem__#rebinds-only-new-entries:{n}", new_key or len_ok, sx.loc(ev),
+                    "a whole-entry rebinding `self._data[key] = ...` happens only for a key that is not a column yet "
+                    "(or under an explicit length test)", f"under {[S.show(c) for c in conds]}")
+    if not n:
+        raise AnalysisError("Table.__setitem__: no `self._data[key] = value` store -- cannot decide")
+
+
 def check(col: Collector):
     _no_aliasing(col)
     _uniform(col)
@@ -394,3 +417,4 @@ def check(col: Collector):
     _attrs(col)
     _no_source_mutation(col)
     _checked_ctor(col)
+    _column_rebinding(col)
